@@ -77,6 +77,12 @@ PENDING_FINDINGS = {
         'its fields appear in the typelib (start_union only links a node into the module when node_stack == NULL)',
     'absent:anonymous-member:record-in-union':
         'an anonymous struct member of a union (<record> inside <union>) is parsed and then dropped from the typelib',
+    'typelib:function-after-callback-field-taken-as-embedded-callback':
+        'since fix b00e44e a function pointer member of a union / boxed / interface is compiled as a gpointer field and its <callback> '
+        'skipped, but ctx->current_typed keeps pointing at that field: the next <method>/<function>/<constructor> of the union is '
+        'attached to the field as its embedded callback (start_function: `else if (ctx->current_typed) field->callback = function`) '
+        'instead of becoming a method — the method is missing, the field claims an embedded type, and the repository API aborts in '
+        'g_type_info_get_interface ("code should not be reached")',
     'compiler:fatal:invalid-signal-run-flags:when=must-collect':
         'a signal the runtime dump reports with when="must-collect" (gdump.c writes that for a signal that has G_SIGNAL_MUST_COLLECT and '
         'none of RUN_FIRST/RUN_LAST/RUN_CLEANUP; the scanner copies it) gets no run flag from start_glib_signal (since fix b4a410c), and '
@@ -1770,6 +1776,10 @@ def judge_case(res, state_names):
             if res.get('standin_deps') and re.search(r"Typelib file for namespace '(%s)'" % '|'.join(STANDIN_NAMESPACES), str(tl.get('message'))):
                 return 'outside', 'standin-gap'
             probs.append(('typelib:does-not-load', 'the repository refuses the typelib: %s' % tl.get('message')))
+        elif tl.get('error') and function_after_callback_field(root):
+            probs.append(('typelib:function-after-callback-field-taken-as-embedded-callback',
+                          'the repository API %s on the typelib: %s %s' % ('aborts' if isinstance(wrc, int) and wrc < 0 else 'fails',
+                                                                       str(tl.get('message'))[-200:], (res.get('walk_err') or '')[-200:])))
         elif tl.get('error'):
             crashed = isinstance(wrc, int) and wrc < 0
             probs.append(('api:%s' % ('crash' if crashed else tl.get('error')),
@@ -1779,6 +1789,22 @@ def judge_case(res, state_names):
             for k, msg in compare(root, tl).items:
                 probs.append((k, msg))
     return 'judged', probs
+
+
+def function_after_callback_field(root):
+    """a union / boxed / interface with a <field><callback/></field> member followed by a function-like member"""
+    for tag in ('union', 'glib:boxed', 'interface'):
+        for u in root.iter(qn(tag)):
+            seen_cb = False
+            for c in u:
+                t = local(c.tag)
+                if t == 'field' and not hidden(c) and kids(c, 'callback'):
+                    seen_cb = True
+                elif t in ('method', 'function', 'constructor', 'callback') and seen_cb and not hidden(c):
+                    return True
+                elif t == 'field' and not hidden(c) and (kids(c, 'type') or kids(c, 'array')):
+                    seen_cb = False     # end_type_top resets current_typed
+    return False
 
 
 def writer_only_shapes(root):
